@@ -203,7 +203,11 @@ func (c *FnCtx) evIdent(x *eIdent, env *evalEnv) *Val {
 		return c.mk(boolT, x.name)
 	case "result":
 		if len(env.result) == 0 {
-			c.efail("result not available here")
+			if c.curLoop == nil {
+				c.efail("result not available here")
+			}
+			// in a loop clause `result` can only mean a local variable of that name
+			break
 		}
 		return env.result[0]
 	}
